@@ -28,6 +28,18 @@ var Metas = map[string]Meta{
 		Technique: "symbolic execution of go/ssa + SMT; native replay",
 		Design:    "DESIGN.md §4 C05",
 	},
+	"C14": {
+		Text:      "Two local consumers build every set of <=4 links/monitors on pid/name/alias/event/node targets living on two remote nodes through the real process API (connections are fakes), remote consumers hold links on a local process; then the real RouteNodeDown with the real defaultTargetManager.CleanupNode runs symbolically: exactly one exit/down with ErrNoConnection per relation on the lost node, relations on the other node untouched, relations of the lost node's processes removed, a repeated node-down notifies nobody. (Incarnation checks and frame-level termination are added by the net/proto entries when present in the evidence.)",
+		Note:      bmcNote + " The chain read error -> serve exit -> unregisterConnection -> RouteNodeDown is covered from RouteNodeDown on; in-flight request timeouts rest on the timer stub.",
+		Technique: "symbolic execution of go/ssa over symbolic relation sets + SMT; native replay",
+		Design:    "DESIGN.md §4 C14",
+	},
+	"C15": {
+		Text:      "Access-control decisions are executed symbolically: every history of <=4 Enable/Disable calls with symbolic node lists on the remote-spawn and remote-application-start tables followed by the permission query for every (name, peer) - allowed must be justified by an Enable not revoked for that peer; and the effective cookie, size limit and flags of an acceptor from the real startAcceptor. (Flag/exposure gates in net/proto and the handshake digest logic are added by further entries when present in the evidence.)",
+		Note:      bmcNote + " The listener is a stub; SHA-256, TLS and the registrar are outside.",
+		Technique: "symbolic execution of go/ssa over symbolic configuration histories + SMT; native replay",
+		Design:    "DESIGN.md §4 C15",
+	},
 	"C17": {
 		Text:      "The real application.start/stop/terminate run symbolically together with the real node.spawn, Kill, SendExit, the real process runner goroutine and unregisterProcess on a hand-built node; members are well-behaved fake behaviours. Every history (which member fails to start, member terminations with each reason class, graceful/forced stop, start again; members busy or idle) within the bound is explored for the three start modes; assertions are the clauses of the property plus 'no call hangs' (the executor reports a goroutine that re-acquires an RWMutex it already holds, and deadlocks). Bounded: <=3 members, <=3 events.",
 		Note:      bmcNote + " Goroutines are scheduled cooperatively in this entry (a goroutine runs until it blocks); dependency ordering of ApplicationStart and registrar routes are outside.",
